@@ -120,7 +120,8 @@ pub fn named_like(c: &DayCase, allow_interval_isha: bool) -> bool {
 /// arguments, so the same call must give the same result whatever was computed before it on the same
 /// thread (memoisation keyed on too little, reused buffers, thread-locals).  `c` is computed first,
 /// then each neighbour of it (one argument changed) on the same thread, and the neighbour's result is
-/// compared with the one a fresh thread gives.  Returns false after reporting a failure.
+/// compared with the one a fresh thread gives (twelve neighbours: Asr school, the two angles, rounding, an
+/// offset, elevation, weather, date, policy, latitude, longitude, GMT offset).  Returns false after reporting a failure.
 pub fn purity_probe(ctx: &mut Ctx, c: &DayCase) -> bool {
     let flip_asr = c.with(|p| p.asr_shadow_ratio = if matches!(p.asr_shadow_ratio, AsrShadowRatio::Shafi) { AsrShadowRatio::Hanafi } else { AsrShadowRatio::Shafi });
     let fajr_up = c.with(|p| *p.angles.get_mut(&Prayer::Fajr).unwrap() += 1.);
@@ -133,6 +134,13 @@ pub fn purity_probe(ctx: &mut Ctx, c: &DayCase) -> bool {
     wx.w = Some(weather(900., -20.));
     let mut next = c.clone();
     next.rd += 1;
+    let (la, lo, g) = (f64::from(c.l.coords.latitude), f64::from(c.l.coords.longitude), f64::from(c.l.gmt));
+    let mut north = c.clone();
+    north.l.coords.latitude = Latitude::try_from(if la + 1. <= 90. { la + 1. } else { la - 1. }).unwrap();
+    let mut east = c.clone();
+    east.l.coords.longitude = Longitude::try_from(if lo + 15. <= 180. { lo + 15. } else { lo - 15. }).unwrap();
+    let mut zone = c.clone();
+    zone.l.gmt = Gmt::try_from(if g + 1. <= 12. { g + 1. } else { g - 1. }).unwrap();
     let pol = c.with(|p| {
         p.extreme_latitude_method = match p.extreme_latitude_method {
             ExtremeLatitudeMethod::NearestLatitudeAllPrayersAlways(l) => ExtremeLatitudeMethod::NearestLatitudeFajrIshaAlways(l),
@@ -142,7 +150,7 @@ pub fn purity_probe(ctx: &mut Ctx, c: &DayCase) -> bool {
             _ => ExtremeLatitudeMethod::NearestGoodDayAllPrayersAlways,
         }
     });
-    for (what, v) in [("asr school", flip_asr), ("Fajr angle", fajr_up), ("Isha angle", isha_up), ("rounding", round), ("Asr offset", offset), ("elevation", elev), ("weather", wx), ("next day", next), ("policy", pol)] {
+    for (what, v) in [("asr school", flip_asr), ("Fajr angle", fajr_up), ("Isha angle", isha_up), ("rounding", round), ("Asr offset", offset), ("elevation", elev), ("weather", wx), ("next day", next), ("policy", pol), ("latitude", north), ("longitude", east), ("GMT offset", zone)] {
         ctx.eval();
         let _ = c.run();
         let seq = v.run();
